@@ -45,6 +45,12 @@ def main():
             sh("git", "-C", wt, "clean", "-fdq")
 
         def textual(m):
+            if "edits" in m:
+                for e in m["edits"]:
+                    err = textual(e)
+                    if err:
+                        return err
+                return None
             p = os.path.join(wt, m["file"])
             s = open(p).read()
             n = s.count(m["old"])
